@@ -732,13 +732,26 @@ PURE_HOST = {"len", "int", "float", "chr", "str", "isinstance", "range", "repr",
              "print", "super", "type", "hash", "sum", "iter", "next", "map", "filter", "reversed", "__name__"}
 
 
+AMBIENT_PREFIXES = ("random.", "time.", "os.", "sys.", "locale.", "uuid.", "secrets.", "socket.", "subprocess.",
+                    "shutil.", "pathlib.", "tempfile.", "getpass.", "platform.", "datetime.datetime.now",
+                    "datetime.datetime.today", "datetime.datetime.utcnow", "datetime.date.today", "pkgutil.", "io.")
+AMBIENT_NAMES = {"open", "input", "id", "globals", "locals", "vars", "exec", "eval", "compile", "__import__",
+                 "breakpoint", "hash"}
+
+
+def _ambient(target):
+    """host names that read or change something outside the text being parsed (positive list: an unknown pure helper
+    such as bytes.fromhex is not evidence of anything)"""
+    return target in AMBIENT_NAMES or target.startswith(AMBIENT_PREFIXES)
+
+
 def pure(ctx, model, cg, reach):
     for f in sorted(reach, key=lambda x: (x.file, x.qual)):
         if f.module.name not in ("lexer", "parser"):
             continue
         bad = []
         for r in cg.refs(f):
-            if r.kind == "host" and r.target not in PURE_HOST and r.target.split(".")[0] not in ("math",):
+            if r.kind == "host" and _ambient(r.target):
                 bad.append(r.target)
             if r.kind == "global" and not r.is_call:
                 pass
